@@ -150,8 +150,9 @@ def main():
     seed = int(os.environ.get('VERIF_SEED', '0') or 0)
     t0 = time.time()
     h = harnesses.get(pid.lower())
-    evidence_path = os.path.join(VERIF, 'evidence', pid + '.json')
-    os.makedirs(os.path.join(VERIF, 'evidence', 'replays'), exist_ok=True)
+    EVDIR = os.environ.get('VERIF_EVIDENCE_DIR') or os.path.join(VERIF, 'evidence')   # override: runs on scratch trees
+    evidence_path = os.path.join(EVDIR, pid + '.json')
+    os.makedirs(os.path.join(EVDIR, 'replays'), exist_ok=True)
     log = []
     status = 2
     ev = {'property_id': pid, 'tier': tier, 'seed': seed, 'level': 'model_checking', 'coverage': {}, 'wall_s': 0.0,
@@ -184,7 +185,7 @@ def main():
                     if line not in kf_lines:
                         kf_lines.append(line)
                     continue
-                path = os.path.join(VERIF, 'evidence', 'replays', '%s-%d.json' % (pid, len(reproduced)))
+                path = os.path.join(EVDIR, 'replays', '%s-%d.json' % (pid, len(reproduced)))
                 json.dump(v, open(path, 'w'), indent=1, default=str)
                 v['path'] = path
                 reproduced.append(v)
@@ -280,7 +281,7 @@ def main():
                         if line not in kf_lines:
                             kf_lines.append(line)
                         continue
-                    path = os.path.join(VERIF, 'evidence', 'replays', '%s-%d.json' % (pid, len(reproduced)))
+                    path = os.path.join(EVDIR, 'replays', '%s-%d.json' % (pid, len(reproduced)))
                     json.dump(rec, open(path, 'w'), indent=1, default=str)
                     rec['path'] = path
                     reproduced.append(rec)
